@@ -12,7 +12,7 @@ LEVEL = 'other'
 
 
 def run(ctx, chk):
-    fb = ctx.facts('dev')
+    fb = ctx.facts()
     chk.explanation = ('Abstract reachability over (FSM state, measured?, flag fields) with one transfer function per dispatch '
                        'path; Q1: status published while the bound/as-of still are the constructor placeholders must be Unknown; '
                        'Q2: the poller starts outside its grace period so an early outage is classified Unknown-class.')
